@@ -209,7 +209,7 @@ def run_part_c14(ctx):
     for g in g2:
         for op in ("conv2d", "max_pool2d", "avg_pool2d"):
             k += 1
-            P = cc.make_payload(rng, op, g, bias=(k % 2 == 0), data="distinct")
+            P = cc.make_payload(rng, op, g, bias=(k % 2 == 0), form="int" if k % 2 else "tuple", data="distinct")
             d = (op,) + cc.descr2(g)
             comp = compose_conv if op == "conv2d" else compose_pool
             rf = cc.call(cc.run_impl, P)
